@@ -99,14 +99,21 @@ Theorem merge_recursive_mutates_first_arg_refuted :
 Proof. exact HeapProofs.merge_recursive_mutates_first_arg_refuted. Qed.
 Print Assumptions merge_recursive_mutates_first_arg_refuted.
 
-(* the repaired MERGE_RECURSIVE on the same heap: argument intact, result as
-   specified.  (Only this instance: the statement for all heaps is not proved.) *)
-Theorem merge_recursive_fx_preserves_args_partial :
+(* the repaired MERGE_RECURSIVE (proposed_fixes/C15-merge-recursive-aliasing), for
+   every heap, any number of arguments, aliased or not: no existing cell changes *)
+Theorem merge_recursive_fx_preserves_args : forall fuel h args k r,
+  closed (List.length h) h -> ref_below (List.length h) r ->
+  deep k (fst (h_merge_recursive_fx fuel h args)) r = deep k h r.
+Proof. exact HeapProofs.merge_recursive_fx_preserves_args. Qed.
+Print Assumptions merge_recursive_fx_preserves_args.
+
+(* ... and on the witness above it returns the merged value *)
+Theorem merge_recursive_fx_on_witness :
   deep 4 (fst (h_merge_recursive_fx 4 mr_heap [HO 1; HO 3])) (HO 1) = deep 4 mr_heap (HO 1) /\
   deep 4 (fst (h_merge_recursive_fx 4 mr_heap [HO 1; HO 3])) (snd (h_merge_recursive_fx 4 mr_heap [HO 1; HO 3]))
     = VObj [(bs "a", VObj [(bs "x", VInt 1); (bs "y", VInt 2)])].
-Proof. exact merge_recursive_fx_on_witness. Qed.
-Print Assumptions merge_recursive_fx_preserves_args_partial.
+Proof. exact HeapProofs.merge_recursive_fx_on_witness. Qed.
+Print Assumptions merge_recursive_fx_on_witness.
 
 (* non-vacuity: a closed heap with aliased arguments (two arrays over one
    backing array, an object referring to one of them) *)
